@@ -13,7 +13,10 @@ def dlStr : DL → String
 def c20dialc (a : List String) (obs : String) : String × String :=
   if obs.startsWith "SKIP" then (obs, "skip") else
   match a with
-  | [bg, to, cx, dd, hs0, fl] =>
+  | [bg, to, cx, dd0, hs0, fl] =>
+    -- "<u>i": NetDial ignores its context
+    let ign := dd0.endsWith "i"
+    let dd := if ign then dd0.dropRight 1 else dd0
     -- "a+b": the response arrives in two parts; the handshake I/O finishes when the second has arrived
     let hs := match hs0.splitOn "+" with
       | [x, y] => toString (natOr x + natOr y)
@@ -27,7 +30,7 @@ def c20dialc (a : List String) (obs : String) : String × String :=
       | _ => (none, false)
     let i : In := { bg := bg == "1", timeout := if to == "0" then none else some (natOr to), ctxEnd, ctxIsDeadline := isDl,
                     dialDur := parseU dd, hsDur := parseU hs, hsFail := fl == "1",
-                    pickCtx := getF obs "err" != "nil" }     -- the scheduler's choice in the unforced race is an input
+                    pickCtx := getF obs "err" != "nil", dialIgnores := ign }     -- the scheduler's choice in the unforced race is an input
     let o := dial i
     let model := s!"err={dErrStr o.err} connected={if o.connected then 1 else 0} closed={if o.closed then 1 else 0} dl={dlStr o.dl} late=0 hung=0 leak=0 touched=0"
     -- oracle: the property's clauses on the observation alone
